@@ -5,7 +5,7 @@ usage: tools/benign.py benign/<name> [Cxx ...]"""
 import glob, json, os, re, shutil, subprocess, sys, tempfile, time
 from concurrent.futures import ThreadPoolExecutor
 ROOT = os.path.dirname(os.path.dirname(os.path.abspath(__file__)))
-REPO = "/repo"
+REPO = os.environ.get("VERIF_REPO", "/repo")
 d = os.path.abspath(sys.argv[1]); name = os.path.basename(d)
 patch = open(os.path.join(d, "patch.diff")).read()
 files = re.findall(r"^\+\+\+ b/(\S+)", patch, re.M)
